@@ -132,8 +132,8 @@ func evalC14(in []byte) (vs []*Violation, accepted bool) {
 }
 
 func checkC14(r *Run) {
-	r.Assume = []string{"alphabet a 1 : @ ; ? & = [ ] . after sip:/sips:/tel: (and case variants of the scheme); longer inputs are outside the bound"}
-	sig := []byte("a1:@;?&=[].")
+	r.Assume = []string{"alphabet a 1 : @ ; ? & = [ ] . / after sip:/sips:/tel: (and case variants of the scheme); longer inputs are outside the bound"}
+	sig := []byte("a1:@;?&=[]./")
 	L := r.pick(8, 9)
 	for _, sch := range []string{"sip:", "sips:", "tel:", "SIP:", "sIpS:", "Tel:"} {
 		l := L
